@@ -132,12 +132,14 @@ class World:
         """end of the simulated process: run the atexit callbacks (sharded accessors flush there)"""
         self.env.run_atexit()
 
-    def read_scale(self, url, info, scale_index=0, options=None, cs_index=0):
+    def read_scale(self, url, info, scale_index=0, options=None, cs_index=0, own_decoder=False):
         """Read every chunk of a scale with a fresh accessor; returns object array (C,Z,Y,X) of elements
-        (None where a chunk is missing) and the dtype."""
+        (None where a chunk is missing) and the dtype.  own_decoder: decode the fetched bytes with a decoder built
+        for this scale alone from the info on disk (what a reader that opens one scale does), not through PrecomputedIO."""
         acc = self.accessor(url, options)
         io = self.pio.get_IO_for_existing_dataset(acc)
         sc = io.info["scales"][scale_index]
+        one = load.mod("chunk_encoding").get_encoder(io.info, sc) if own_decoder else None
         X, Y, Z = sc["size"]
         C = io.info["num_channels"]
         cs = sc["chunk_sizes"][cs_index]
@@ -148,8 +150,13 @@ class World:
                 for z0 in range(0, Z, cs[2]):
                     cc = (x0, min(x0 + cs[0], X), y0, min(y0 + cs[1], Y), z0, min(z0 + cs[2], Z))
                     try:
-                        ch = io.read_chunk(sc["key"], cc)
+                        if one is not None:
+                            ch = one.decode(acc.fetch_chunk(sc["key"], cc), (cc[1] - cc[0], cc[3] - cc[2], cc[5] - cc[4]))
+                        else:
+                            ch = io.read_chunk(sc["key"], cc)
                     except Exception as e:
+                        if one is not None and type(e).__name__ in ("OutsideModel", "Inconclusive"):
+                            raise
                         problems.append(f"chunk {cc}: {type(e).__name__}: {e}")
                         continue
                     want = (C, cc[5] - cc[4], cc[3] - cc[2], cc[1] - cc[0])
